@@ -580,8 +580,16 @@ def m_identity(eng, st, call):
     return [(st, call.args[0])]
 
 
+def deep_deref(eng, st, v, depth=0):
+    """value with the references nested inside aggregates replaced by what they point to (Option<&str> == Option<&str> compares the strings)"""
+    v = deref_all(eng, st, v)
+    if isinstance(v, Agg) and depth < 4 and any(isinstance(f, Ref) or isinstance(f, Agg) for f in v.fields):
+        return Agg(v.kind, v.ty, v.variant, [deep_deref(eng, st, f, depth + 1) if isinstance(f, (Ref, Agg)) else f for f in v.fields], v.names)
+    return v
+
+
 def m_eq(eng, st, call):
-    a, b = deref_all(eng, st, call.args[0]), deref_all(eng, st, call.args[1])
+    a, b = deep_deref(eng, st, call.args[0]), deep_deref(eng, st, call.args[1])
     e = val_eq(eng, a, b)
     if method_name(call.fn) == 'ne':
         e = z3.Not(e)
@@ -1138,8 +1146,19 @@ def m_iter_simple(eng, st, call):
         elif name == 'count':
             out.append((s0, z3.BitVecVal(len(items), 64)))
         elif name in ('skip', 'take'):
-            n = eng.concrete_int(s0, call.args[1])
-            out.append((s0, IterV(items[n:] if name == 'skip' else items[:n])))
+            nv = call.args[1]
+            if z3.is_bv(nv) and not z3.is_bv_value(z3.simplify(nv)):
+                # symbolic count over a concrete-shape sequence: fork on n == 0, 1, .., len-1 and n >= len (the shape of the result is then known)
+                L = len(items)
+                for k in range(L + 1):
+                    cond = (nv == k) if k < L else z3.UGE(nv, L)
+                    if eng.feasible(s0, cond):
+                        s1 = s0.clone()
+                        eng.assume(s1, cond)
+                        out.append((s1, IterV(items[k:] if name == 'skip' else items[:k])))
+            else:
+                n = eng.concrete_int(s0, nv)
+                out.append((s0, IterV(items[n:] if name == 'skip' else items[:n])))
         elif name == 'collect':
             out.append((s0, collect_into(eng, s0, items, call.dest_ty)))
         elif name == 'last':
@@ -1237,6 +1256,20 @@ def m_new_container(eng, st, call):
     if t == 'String':
         return [(st, StrV(text=''))]
     return None
+
+
+def m_copy_from_slice(eng, st, call):
+    """<[T]>::copy_from_slice(dest, src): dest becomes a copy of src (std panics when the lengths differ: callers guard it with a length check; the panic is modelled when the lengths are provably different)"""
+    a = call.args[0]
+    if not isinstance(a, Ref):
+        return None
+    src = deref_all(eng, st, call.args[1])
+    dst = eng.read(st, a.loc, a.path)
+    if isinstance(dst, SeqV) and isinstance(src, SeqV) and len(dst.items) != len(src.items):
+        raise MirError('copy_from_slice: length mismatch (panic)')
+    from .api import uid_of
+    eng.write(st, a.loc, a.path, copy_val(src) if isinstance(src, (SeqV, Agg)) else Opaque('copy_of(' + uid_of(eng, st, src) + ')', '[T]'))
+    return [(st, UNIT())]
 
 
 def m_seq(eng, st, call):
@@ -1405,6 +1438,7 @@ def type_args_of_entry(fn):
 STD_MODELS += [
     (R(r'^(std::vec::|alloc::vec::)?Vec::<.*>::new$|VecDeque::<.*>::new$|HashMap::<.*>::new$|HashSet::<.*>::new$|BTreeMap::<.*>::new$|BTreeSet::<.*>::new$|^String::new$|std::string::String::new$'), m_new_container),
     (R(r' as (std::ops::)?Index(Mut)?<usize>>::index(_mut)?$'), m_seq_index),
+    (R(r'copy_from_slice$'), m_copy_from_slice),
     (R(r'(Vec|VecDeque)::<.*>::(push|push_back|push_front|pop|pop_front|pop_back|len|is_empty|iter|iter_mut|split_off|clear|first|last|front|back|get|to_vec|as_slice|contains|truncate|remove)$'), m_seq),
     (R(r'slice::<impl \[.*\]>::(len|is_empty|iter|iter_mut|first|last|get|to_vec|contains)$'), m_seq),
     (R(r'(HashMap|BTreeMap|HashSet|BTreeSet|LruCache)::<.*>::(get|get_mut|peek|peek_mut|contains|contains_key|insert|put|push|remove|pop|len|is_empty|clear|entry|values|values_mut|keys|iter|iter_mut|retain)(::<.*>)?$'), m_mapops),
